@@ -186,6 +186,31 @@ fn finding(which: &str) -> Result<String, String> {
             let msg = format!("1000 ascending keys: len={} capacity={} (bound 2*len+8)", v.len(), v.capacity());
             if v.capacity() <= 2 * v.len() + 8 { Ok(msg) } else { Err(msg) }
         }
+        "F7" => {
+            use i_tree::seg::exp::{SegExpCollection, SegRange};
+            use i_tree::seg::tree::SegExpTree;
+            let r = std::panic::catch_unwind(|| {
+                let mut out = vec![];
+                for (lo, hi) in [(i64::MIN, i64::MAX), (-(1i64 << 62) - 5, (1i64 << 62) + 5)] {
+                    match SegExpTree::<i64, i32, XV>::new(SegRange { min: lo, max: hi }) {
+                        None => out.push(format!("new([{},{}]) = None", lo, hi)),
+                        Some(mut t) => {
+                            t.insert_by_range(SegRange { min: -5, max: 5 }, XV { id: 1, exp: 10 });
+                            t.insert_by_range(SegRange { min: hi - 3, max: hi }, XV { id: 2, exp: 10 });
+                            let mut got: Vec<i32> = t.iter_by_range(SegRange { min: 0, max: hi }, 0).map(|v| v.id).collect(); got.sort();
+                            let got2: Vec<i32> = t.iter_by_range(SegRange { min: lo, max: lo + 3 }, 0).map(|v| v.id).collect();
+                            out.push(format!("[{},{}]: query([0,hi]) = {:?}, query([lo,lo+3]) = {:?}", lo, hi, got, got2));
+                            if got != vec![1, 2] || !got2.is_empty() { out.push("WRONG".to_string()); }
+                        }
+                    }
+                }
+                out
+            });
+            match r {
+                Err(_) => Err("SegExpTree::new / insert / query on an i64 domain of more than i64::MAX points panicked (arithmetic overflow)".to_string()),
+                Ok(out) => { let msg = out.join("; "); if msg.contains("None") || msg.contains("WRONG") { Err(msg) } else { Ok(msg) } }
+            }
+        }
         _ => Err("unknown finding".to_string()),
     }
 }
@@ -550,12 +575,16 @@ fn explore_seg(seed: u64, steps: usize) -> Result<(), String> {
     use i_tree::seg::tree::SegExpTree;
     if seed == 1 { masks_exhaustive()?; }
     let mut rng = Rng(seed.wrapping_mul(0x9E3779B97F4A7C15) | 1);
-    let domains: [(i64, i64); 10] = [(0, 31), (-16, 15), (0, 127), (-1000, 2000), (5, 21), (0, 128), (-7, 25), (100, 1124), (0, (1i64 << 33) + (1i64 << 32) - 1), (-(1i64 << 40), 1i64 << 40)];
-    let (lo, hi) = domains[(seed % 10) as usize];
-    let mut t = match SegExpTree::<i64, i32, XV>::new(SegRange { min: lo, max: hi }) { Some(t) => t, None => return Err(format!("[C14] new([{},{}]) refused a domain of {} points", lo, hi, hi - lo + 1)) };
-    let len = hi - lo + 1;
-    let mut scale = 0; while (32i64 << scale) < len { scale += 1; }
-    let bucket = |x: i64| -> i64 { (x - lo) >> scale };
+    let domains: [(i64, i64); 12] = [(0, 31), (-16, 15), (0, 127), (-1000, 2000), (5, 21), (0, 128), (-7, 25), (100, 1124), (0, (1i64 << 33) + (1i64 << 32) - 1), (-(1i64 << 40), 1i64 << 40),
+        (i64::MIN, i64::MAX), (-(1i64 << 62) - 5, (1i64 << 62) + 5)]; // the last two: more than i64::MAX points
+    let (lo, hi) = domains[(seed % 12) as usize];
+    note(&format!("SegExpTree::new(domain [{},{}]); ", lo, hi));
+    let mut t = match SegExpTree::<i64, i32, XV>::new(SegRange { min: lo, max: hi }) { Some(t) => t, None => return Err(format!("[C14] new([{},{}]) refused a domain of {} points", lo, hi, hi as i128 - lo as i128 + 1)) };
+    let len: i128 = hi as i128 - lo as i128 + 1;
+    let mut scale = 0; while (32i128 << scale) < len { scale += 1; }
+    let bucket = |x: i64| -> i128 { (x as i128 - lo as i128) >> scale };
+    let span = (len - 1) as u64;
+    let pick = |r: &mut Rng| -> i64 { let off = if span == u64::MAX { r.next() } else { r.below(span + 1) }; (lo as i128 + off as i128) as i64 };
     let mut model: Vec<(i64, i64, XV)> = vec![];
     let mut time = 0i32;
     let mut hist = format!("domain [{},{}]: ", lo, hi);
@@ -563,7 +592,7 @@ fn explore_seg(seed: u64, steps: usize) -> Result<(), String> {
     for _ in 0..steps {
         let op = rng.below(10);
         if rng.below(3) == 0 { time += rng.below(3) as i32; }
-        let a = lo + rng.below(len as u64) as i64; let b = lo + rng.below(len as u64) as i64;
+        let a = pick(&mut rng); let b = pick(&mut rng);
         let (a, b) = if a <= b { (a, b) } else { (b, a) };
         match op {
             0..=3 => {
@@ -668,6 +697,7 @@ fn explore(which: &str, seeds: u64, steps: usize) -> Result<u64, String> {
     let past = PAST_INV.load(std::sync::atomic::Ordering::Relaxed);
     let mut first_inv: Option<String> = None;
     for seed in 1..=seeds {
+        note(""); // (a panic before the first recorded step must not be reported with the previous history)
         let nkeys = if seed % 4 == 0 { 40 } else { 8 };
         let r = match which {
             "key" => if seed <= 15 { explore_key_bulk(seed).and_then(|_| explore_key(seed, steps, nkeys)) } else { explore_key(seed, steps, nkeys) },
